@@ -162,6 +162,19 @@ def ops_for(s, indices, parts_, full=True):
             x = "x" if is_str else 9
             yield ("substitute", f"substitute({L}, {i}, {lit(x)})",
                    m_assign(s, i, x), nt(i))
+    # compound element assignment reads and writes one position, and
+    # evaluates the index expression once
+    if is_str or all(type(x) is int for x in s):
+        for i in indices:
+            j = norm(i, n)
+            x = "x" if is_str else 5
+            want = ERR
+            if 0 <= j < n:
+                want = ("ok", [1, m_assign(s, i, s[j] + x)[1]])
+            yield ("compound-assign",
+                   f"(fn(t) do def c = 0; def nx() do c += 1; {i} end; "
+                   f"t[nx()] += {lit(x)}; [c, t] end)({fresh(s)})",
+                   want, nt(i))
     for i in indices:
         if is_str:
             yield ("assign",
